@@ -26,12 +26,12 @@ import (
 
 // Job is the Wa side of one program.
 type Job struct {
-	ID        string
-	Src       string
-	N         int
-	Only      []int    // when set: run only these cases (the others stay "skipped")
-	Warm      string   // exported no-op function called (untimed) on a fresh instance, so that the
-	                   // per-case horizon measures the case and not the instantiation of the module
+	ID   string
+	Src  string
+	N    int
+	Only []int  // when set: run only these cases (the others stay "skipped")
+	Warm string // exported no-op function called (untimed) on a fresh instance, so that the
+	// per-case horizon measures the case and not the instantiation of the module
 	Expect    []string // when set: stop after the first case whose outcome is not "ok" with this output
 	HorizonMs int64    // per case
 }
